@@ -216,6 +216,16 @@ def targets_through_convert():
                     got = "%s: %s" % (type(e).__name__, str(e)[:60])
                 exp = dict(jumps=want, labels=[10, 100, 200] if not filt else sorted(set(want)))
                 res.append(ob("targets/bare line numbers in IF arms/%s,filter=%d" % (name, filt), got == exp, exp, got, stmt))
+        # a line number is the number written, however large: numbers above the label limit are refused, never wrapped onto a small one
+        for name, prog in {"GOTO 65546 with a line 10": "10 GOTO 65546\n", "GOSUB 65546": "10 GOSUB 65546\n20 END\n", "line 65546": "10 A=1\n65546 PRINT\n", "line 98235": "98235 END\n", "THEN 65546": "10 IF A=1 THEN 65546\n",
+                           "ON A GOTO 10,65546": "10 ON A GOTO 10,65546\n", "ON ERR GOTO 65546": "10 ON ERR GOTO 65546\n", "GOTO 4294967306": "10 GOTO 4294967306\n", "line 32700": "32700 END\n", "GOTO 131082": "10 GOTO 131082\n"}.items():
+            for filt, suffix in itertools.product((False, True), (False, True)):
+                try:
+                    text = convert(prog, add_standard_prefix=False, filter_unused_linenum=filt, add_suffix=suffix)
+                    got = "converted: " + text.strip().split("\n")[0][:40]
+                except Exception as e:  # noqa
+                    got = "refused (%s)" % type(e).__name__
+                res.append(ob("targets/numbers above the limit are refused/%s,filter=%d,suffix=%d" % (name, filt, suffix), got.startswith("refused (ParseError") or got.startswith("refused (LineNumberTooLarge"), "refused", got, prog))
         # more than one ON ERR / ON BRK statement is refused - however many different lines they name
         for name, prog, refused in (("two ON ERR, same target", "10 ON ERR GOTO 100\n20 ON ERR GOTO 100\n100 END\n", True), ("two ON ERR, two targets", "10 ON ERR GOTO 100\n20 ON ERR GOTO 200\n100 END\n200 END\n", True),
                                     ("two ON ERR on one line", "10 ON ERR GOTO 100:ON ERR GOTO 100\n100 END\n", True), ("second ON ERR in an IF arm", "10 ON ERR GOTO 100\n20 IF A=1 THEN ON ERR GOTO 100\n100 END\n", True),
